@@ -45,7 +45,7 @@ def native_run(spec, tests, tag="replay"):
     sc = kani.Scratch(spec["config"], tag)
     try:
         hsrc = os.path.join(VERIF, "harness", spec["harness_file"])
-        sc.prepare({}, native=True)
+        sc.prepare({}, native=True, rewrites=spec.get("rewrites"))
         shutil.copytree(os.path.join(VERIF, "harness"), os.path.join(sc.dir, "harness"))
         local = os.path.join(sc.dir, "harness", spec["harness_file"])
         text = open(hsrc).read()
@@ -54,7 +54,8 @@ def native_run(spec, tests, tag="replay"):
         open(local, "w").write(text)
         real = os.path.join(sc.src, spec["file"])
         with open(real, "a") as f:
-            f.write('\n#[cfg(kani)]\n#[path = "%s"]\nmod verif_replay;\n' % local)
+            modname = "verif_" + re.sub(r"[^a-z0-9]", "_", os.path.basename(spec["harness_file"]).replace(".rs", ""))
+            f.write('\n#[cfg(kani)]\n#[path = "%s"]\nmod %s;\n' % (local, modname))
         cfg = sc.cfg
         reproduced, details = False, []
         # default features stay ON here: tonic's own #[cfg(test)] modules (compiled by `cargo test`) need them
@@ -93,6 +94,7 @@ def replay_failure(pid, spec, res, scratches):
     path = os.path.join(VERIF, "replays", pid, spec["name"] + ".json")
     rec = dict(property=pid, harness=spec["name"], config=spec["config"], file=spec["file"], harness_file=spec["harness_file"],
                unwind=spec.get("unwind"), failed_checks=res["failed"][:20], obligation=spec.get("obligation", ""),
+               rewrites=[list(r) for r in spec.get("rewrites", [])],
                created=time.strftime("%Y-%m-%dT%H:%M:%SZ", time.gmtime()))
     if spec.get("engine") == "Z":
         rec["model"] = res.get("model")
@@ -121,7 +123,8 @@ def replay_file(path):
     if "tests" not in rec:
         print("replay file has no concrete test (engine Z or unreproduced): %s" % rec.get("why", rec.get("model")))
         return False
-    spec = dict(name=rec["harness"], config=rec["config"], file=rec["file"], harness_file=rec["harness_file"])
+    spec = dict(name=rec["harness"], config=rec["config"], file=rec["file"], harness_file=rec["harness_file"],
+                rewrites=[tuple(r) for r in rec.get("rewrites", [])])
     ok, detail = native_run(spec, [(t["name"], t["source"]) for t in rec["tests"]], tag="replayfile")
     print(detail)
     return ok
